@@ -60,6 +60,12 @@ CHECKS = {
             "(layouts, missing variables), validators on the halves' functions; direct: both halves of every component split, "
             "remove_unused off/on, fed from the full model, compared by name (rhs, monitored values, Euler, generalized RL, missing_values).",
             "Gallina model of the split + transfer theorem + differential execution of both halves"),
+    "C14": ("Theorems (over the batch carrier a function body executed on a batch gives, in column j, the result for column j alone, "
+            "and fails exactly when the single-column call fails; every expression is evaluated column by column - for every body, width "
+            "and carrier) + correspondence: every generated right-hand side consists only of constructs in the array-safe fragment "
+            "(the Python-ast -> expr translation), a Python conditional / and / or / chained comparison is reported; direct: batches "
+            "of 2-8 columns, shared and per-column parameters/time, three shape options, every generated function.",
+            "Gallina batch semantics with column-wise theorem + array-safety validation + batch-vs-column execution"),
 }
 
 def main():
